@@ -54,6 +54,7 @@ type world struct {
 	// inj: the keyspaces whose CURRENT table was installed by a `repl` line (hook, not the code's path) and has not been
 	// recomputed by the policy since
 	inj     map[string]bool
+	own     map[string]bool // (w-s11f) keyspaces whose table is observed on the policy (NetworkTopologyStrategy): computed by the code itself
 	slots   map[int]*slot
 	epoch   int          // number of mutating ops so far
 	taint   map[int]bool // hosts with non-commuting concurrent calls not yet settled by a sequential add/remove
@@ -90,6 +91,9 @@ type slot struct {
 	ended   bool
 	broken  bool
 	expOpen map[int]bool // the hosts the history expected when the iterator was created
+	// (w-s11f) the state of a host object changed during the life of the iterator (the iterator reads it at every call)
+	stch      bool
+	stTouched map[int]bool
 }
 
 type burstCall struct {
@@ -385,10 +389,15 @@ func (w *world) specRefresh(ksName string) {
 	if !w.isTA || !w.partSet {
 		return
 	}
+	if m, ok := w.ksMeta[ksName]; ok && strings.HasPrefix(m, "nts:") {
+		w.observeTable(ksName)
+		return
+	}
 	delete(w.tables, ksName)
 	delete(w.tableDup, ksName)
 	delete(w.inj, ksName)
 	delete(w.held, ksName)
+	delete(w.own, ksName)
 	m, ok := w.ksMeta[ksName]
 	if !ok || m == "local" {
 		return
@@ -619,12 +628,13 @@ func (w *world) exec(op string) (res string) {
 		w.hot = false
 		w.lastPlain = nil
 		w.sessKs, w.ksMeta, w.held, w.inj = "", map[string]string{}, map[string]bool{}, map[string]bool{}
+		w.own = map[string]bool{}
 		w.slots, w.epoch, w.taint, w.pending, w.mutLog = map[int]*slot{}, 0, map[int]bool{}, nil, nil
 		w.poisoned = false
 		if w.isTA {
 			w.pol = newTA(fb, f[5] == "1", f[6] == "1")
 			gocql.VerifTAInit(w.pol, "verif_session_ks")
-			gocql.VerifTAKeyspaces(w.pol, "verif_session_ks", w.lookupKs)
+			gocql.VerifTAKeyspacesOpts(w.pol, "verif_session_ks", w.lookupKsOpts)
 			if f[7] == "1" {
 				w.pol.SetPartitioner("OrderedPartitioner")
 			}
@@ -684,6 +694,90 @@ func (w *world) exec(op string) (res string) {
 			delete(w.taint, atoi(f[1]))
 		}
 		return w.snapshot()
+	case "kstab":
+		// kstab <ks> none|empty|<tok>:<ids> ...   (w-s11f) the table the policy holds NOW for a NetworkTopologyStrategy keyspace
+		// (the line is generated from the observation; the model adopts it - placement is C10's subject)
+		if len(f) < 3 || !w.isTA {
+			return "bad-op"
+		}
+		w.epoch++
+		w.lastPlain = nil
+		w.observeTable("ks" + f[1])
+		if got := w.showObserved("ks" + f[1]); got != strings.Join(f[2:], " ") {
+			return "differs:" + got
+		}
+		return "ok"
+	case "setpart":
+		// setpart: SetPartitioner("OrderedPartitioner") - the partitioner becomes known AFTER hosts / keyspaces (a second
+		// call with the same name changes nothing); the round-robin based policies ignore it
+		if len(f) != 1 {
+			return "bad-op"
+		}
+		w.epoch++
+		w.lastPlain = nil
+		w.pol.SetPartitioner("OrderedPartitioner")
+		if w.isTA && !w.partSet {
+			w.partSet = true
+			w.specRefreshAll()
+		}
+		return "ok"
+	case "islocal":
+		// islocal <id>: IsLocal(host) [HostTier(host)/MaxHostTier() for a HostTierer] - the tier function the token-aware
+		// policy sorts the replicas by
+		if len(f) != 2 {
+			return "bad-op"
+		}
+		h, ok := w.hosts[atoi(f[1])]
+		if !ok {
+			return "bad-op"
+		}
+		res := b01(w.pol.IsLocal(h))
+		var inner interface{} = w.pol
+		if w.isTA {
+			inner = gocql.VerifTAFallback(w.pol)
+		}
+		if ht, ok := inner.(gocql.HostTierer); ok {
+			res += fmt.Sprintf(" %d/%d", ht.HostTier(h), ht.MaxHostTier())
+		}
+		// the harness' own tier function (from the op lines): nearest tier <=> local
+		if (w.tier(h) == 0) != w.pol.IsLocal(h) {
+			return "crash:property violated on the real code: IsLocal disagrees with the tier of the host: " + res
+		}
+		return res
+	case "addhosts":
+		// addhosts <id,id,...>: what Session.init does with the hosts of the first ring refresh - ONE call of AddHosts
+		// if the policy has it (tokenAwareHostPolicy: every host into its own list, then ring + every held table
+		// recomputed ONCE, unconditionally, then AddHost of the fallback policy per host), AddHost per host otherwise
+		if len(f) != 2 || w.alias() {
+			return "bad-op"
+		}
+		var hs []*gocql.HostInfo
+		for _, id := range intList(f[1]) {
+			h, ok := w.hosts[id]
+			if !ok {
+				return "bad-op"
+			}
+			hs = append(hs, h)
+		}
+		if len(hs) == 0 {
+			return "bad-op"
+		}
+		w.lastPlain = nil
+		w.epoch++
+		for _, id := range intList(f[1]) {
+			w.mutLog = append(w.mutLog, mutRec{w.epoch, id})
+			w.record("add", id)
+			delete(w.taint, id)
+		}
+		if v, ok := w.pol.(interface{ AddHosts([]*gocql.HostInfo) }); ok {
+			v.AddHosts(hs)
+		} else {
+			for _, h := range hs {
+				w.pol.AddHost(h)
+			}
+		}
+		w.specRefreshAll()
+		return w.snapshot()
 	case "sessks":
 		if len(f) != 2 {
 			return "bad-op"
@@ -691,7 +785,7 @@ func (w *world) exec(op string) (res string) {
 		w.epoch++
 		w.sessKs = "ks" + f[1]
 		if w.isTA {
-			gocql.VerifTAKeyspaces(w.pol, w.sessKs, w.lookupKs)
+			gocql.VerifTAKeyspacesOpts(w.pol, w.sessKs, w.lookupKsOpts)
 		}
 		return "ok"
 	case "ksmeta":
@@ -739,7 +833,14 @@ func (w *world) exec(op string) (res string) {
 			return "bad-op"
 		}
 		w.lastPlain = nil
-		w.slots = map[int]*slot{} // the state of the hosts is fixed during the life of an iterator
+		// (w-s11f) live iterators stay alive: they read the state of a host at the call that reaches it
+		for _, sl := range w.slots {
+			sl.stch = true
+			if sl.stTouched == nil {
+				sl.stTouched = map[int]bool{}
+			}
+			sl.stTouched[atoi(f[1])] = true
+		}
 		gocql.VerifSetHostUp(h, f[2] == "1")
 		return "ok"
 	case "ctr":
@@ -803,10 +904,21 @@ func (w *world) exec(op string) (res string) {
 		if !isOffer {
 			limitS, perms = f[3], f[4]
 		}
+		// <ks> = nil: Pick(nil); <ks> = err: a query whose GetRoutingKey fails (on a keyspace WITH a table) - both are
+		// handed to the fallback policy as they are, like a query without routing key
+		qkind := ""
+		if f[1] == "nil" || f[1] == "err" {
+			qkind = f[1]
+			f = append([]string(nil), f...)
+			f[1], f[2] = "-", "-"
+		}
 		if isOffer && w.offerExcluded(f[1], f[2], perms) != "" {
 			return "excluded"
 		}
 		fresh := w.specFresh(f[1])
+		if w.own["ks"+f[1]] {
+			fresh = true // a table the policy computed itself: a host it does not know is not excused in the head
+		}
 		var rk []byte
 		if f[1] != "-" && f[2] != "-" {
 			rk = []byte(tok(atoi(f[2])))
@@ -830,7 +942,8 @@ func (w *world) exec(op string) (res string) {
 		reps, known, _ := w.specReplicas(f[1], f[2], perms)
 		if known {
 			headAny = w.specHead(reps)
-			if !hasDup(reps) {
+			if !hasDup(reps) || w.own[ksName] {
+				// (a duplicate in a table the policy computed ITSELF is not excused: the sequence is held to 'no host twice')
 				head = headAny
 			} else {
 				dupReps = true
@@ -838,7 +951,14 @@ func (w *world) exec(op string) (res string) {
 		}
 		prevPlain := w.lastPlain
 		w.lastPlain = nil
-		it := w.pol.Pick(gocql.VerifQuery(ksName, rk))
+		var qry gocql.ExecutableQuery = gocql.VerifQuery(ksName, rk)
+		switch qkind {
+		case "nil":
+			qry = nil
+		case "err":
+			qry = gocql.VerifQueryErr("ks0", []byte(tok(0)))
+		}
+		it := w.pol.Pick(qry)
 		var got []*gocql.HostInfo
 		for n := 0; n < limit; n++ {
 			sh := it()
@@ -1002,11 +1122,11 @@ func (w *world) exec(op string) (res string) {
 			}
 			gocql.VerifSeedShuffle(sd)
 		}
-		sl := &slot{epoch: w.epoch, fresh: w.specFresh(f[2])}
+		sl := &slot{epoch: w.epoch, fresh: w.specFresh(f[2]) || w.own["ks"+f[2]]}
 		sl.reps, sl.known, _ = w.specReplicas(f[2], f[3], perms)
 		if sl.known {
 			sl.headAny = w.specHead(sl.reps)
-			if !hasDup(sl.reps) {
+			if !hasDup(sl.reps) || w.own["ks"+f[2]] {
 				sl.head = sl.headAny
 			} else {
 				sl.dupReps = true
@@ -1075,15 +1195,18 @@ func (w *world) exec(op string) (res string) {
 					return "crash:property violated on the real code: down host offered"
 				}
 			}
-			if v := w.headViolation(sl.head, sl.given, 1000, !sl.ended); v != "" {
-				return "crash:property violated on the real code: " + v
+			// (the specified head and the history oracle are stated for the host states at the Pick: not after a state change)
+			if !sl.stch {
+				if v := w.headViolation(sl.head, sl.given, 1000, !sl.ended); v != "" {
+					return "crash:property violated on the real code: " + v
+				}
 			}
-			if sl.ended && sl.epoch == w.epoch {
+			if sl.ended && sl.epoch == w.epoch && !sl.stch {
 				if v := w.oracle(sl.given, len(sl.head), sl.dupReps, sl.headAny, sl.fresh); v != "" {
 					return "crash:property violated on the real code: " + v + " offered=" + w.showIDs(sl.given)
 				}
 			}
-			if sl.ended && sl.epoch != w.epoch && !w.alias() && !w.hot {
+			if sl.ended && (sl.epoch != w.epoch || sl.stch) && !w.alias() && !w.hot {
 				// topology calls happened during the life of the iterator: a host that the history expected when the iterator
 				// was created, still expects, and that no call was about in between, must have been offered
 				touched := map[int]bool{}
@@ -1098,7 +1221,7 @@ func (w *world) exec(op string) (res string) {
 				}
 				for _, id := range w.sortedIDs() {
 					h := w.hosts[id]
-					if sl.expOpen[id] && !touched[id] && !w.taint[id] && w.stat(id).expected(h.IsUp()) && !seen[h] {
+					if sl.expOpen[id] && !touched[id] && !sl.stTouched[id] && !w.taint[id] && w.stat(id).expected(h.IsUp()) && !seen[h] {
 						return fmt.Sprintf("crash:property violated on the real code: host %d was known and up during the whole life of the iterator (no call about it) but is not offered: offered=%s", id, w.showIDs(sl.given))
 					}
 				}
@@ -1111,11 +1234,35 @@ func (w *world) exec(op string) (res string) {
 			return w.showIDs(got) + " end"
 		}
 		return w.showIDs(got)
-	case "burst":
+	case "burst", "gburst":
 		// burst <call>:<id> ...   the calls run concurrently, one goroutine each, released together
+		// gburst <gate id> <call>:<id> ...   the same, but every call is PARKED at its first read of host <gate id>'s
+		// address (hook VerifHostGate: the harness holds that HostInfo's write lock) - inside whatever critical section
+		// it is in - until every call of the burst is parked (on the gate or on a lock another parked call holds) or has
+		// returned; then the gate is opened. The schedule class "all calls in progress at once", produced on purpose.
+		var gate *gocql.HostInfo
+		if f[0] == "gburst" {
+			if len(f) < 3 {
+				return "bad-op"
+			}
+			g, ok := w.hosts[atoi(f[1])]
+			if !ok {
+				return "bad-op"
+			}
+			gate = g
+			f = f[1:]
+		}
 		if len(f) < 2 || w.alias() {
 			return "bad-op"
 		}
+		// threads: what each goroutine does - ONE notifier call, or (w-s11f) ONE AddHosts call `addhosts:<id>+<id>+...`
+		// (AddHost per host, in order, for a policy without the method: what Session.init does); calls: the same flattened
+		// to one record per host (an AddHosts call counts as AddHost of each of its hosts)
+		type thread struct {
+			call string
+			ids  []int
+		}
+		var threads []thread
 		var calls []burstCall
 		for _, c := range f[1:] {
 			p := strings.SplitN(c, ":", 2)
@@ -1124,32 +1271,57 @@ func (w *world) exec(op string) (res string) {
 			}
 			switch p[0] {
 			case "add", "remove", "hup", "hdown":
+				if _, ok := w.hosts[atoi(p[1])]; !ok {
+					return "bad-op"
+				}
+				threads = append(threads, thread{p[0], []int{atoi(p[1])}})
+				calls = append(calls, burstCall{p[0], atoi(p[1])})
+			case "addhosts":
+				th := thread{call: "addhosts"}
+				for _, x := range strings.Split(p[1], "+") {
+					if _, ok := w.hosts[atoi(x)]; !ok {
+						return "bad-op"
+					}
+					th.ids = append(th.ids, atoi(x))
+					calls = append(calls, burstCall{"add", atoi(x)})
+				}
+				threads = append(threads, th)
 			default:
 				return "bad-op"
 			}
-			if _, ok := w.hosts[atoi(p[1])]; !ok {
-				return "bad-op"
-			}
-			calls = append(calls, burstCall{p[0], atoi(p[1])})
 		}
 		w.lastPlain = nil
 		w.epoch++
-		var arrived int32
+		var arrived, finished int32
 		var wg sync.WaitGroup
-		panics := make([]string, len(calls))
-		for i, c := range calls {
+		panics := make([]string, len(threads))
+		var openGate func()
+		if gate != nil {
+			for _, c := range calls {
+				if w.hosts[c.id] == gate {
+					return "bad-op" // the gate is a host no call of the burst is about
+				}
+			}
+			openGate = gocql.VerifHostGate(gate)
+		}
+		for i, c := range threads {
 			wg.Add(1)
-			go func(i int, c burstCall) {
+			go func(i int, c thread) {
 				defer wg.Done()
+				defer atomic.AddInt32(&finished, 1)
 				defer func() {
 					if r := recover(); r != nil {
 						panics[i] = fmt.Sprint(r)
 					}
 				}()
-				h := w.hosts[c.id]
+				h := w.hosts[c.ids[0]]
+				var hs []*gocql.HostInfo
+				for _, id := range c.ids {
+					hs = append(hs, w.hosts[id])
+				}
 				// barrier: every goroutine spins until all have arrived (event order only, no clock)
 				atomic.AddInt32(&arrived, 1)
-				for atomic.LoadInt32(&arrived) < int32(len(calls)) {
+				for atomic.LoadInt32(&arrived) < int32(len(threads)) {
 					runtime.Gosched()
 				}
 				switch c.call {
@@ -1161,8 +1333,28 @@ func (w *world) exec(op string) (res string) {
 					w.pol.HostUp(h)
 				case "hdown":
 					w.pol.HostDown(h)
+				case "addhosts":
+					if v, ok := w.pol.(interface{ AddHosts([]*gocql.HostInfo) }); ok {
+						v.AddHosts(hs)
+					} else {
+						for _, x := range hs {
+							w.pol.AddHost(x)
+						}
+					}
 				}
 			}(i, c)
+		}
+		if gate != nil {
+			// open the gate once every call is parked or has returned (event order: goroutine states read from the
+			// runtime; the bound of 200 polls only limits the wait, no verdict depends on it)
+			for poll := 0; poll < 200; poll++ {
+				fin := int(atomic.LoadInt32(&finished)) // read BEFORE the goroutine states: no call is counted twice
+				if atomic.LoadInt32(&arrived) == int32(len(threads)) && fin+parkedInGocql() >= len(threads) {
+					break
+				}
+				time.Sleep(100 * time.Microsecond)
+			}
+			openGate()
 		}
 		done := make(chan struct{})
 		go func() { wg.Wait(); close(done) }()
@@ -1285,6 +1477,26 @@ func (w *world) exec(op string) (res string) {
 	return "bad-op"
 }
 
+// parkedInGocql: the number of goroutines that are blocked on a lock (sync.Mutex / sync.RWMutex) with a gocql frame
+// on their stack - the calls of a gated burst that wait at the gate or behind a call that waits there
+func parkedInGocql() int {
+	buf := make([]byte, 1<<19)
+	buf = buf[:runtime.Stack(buf, true)]
+	n := 0
+	for _, g := range strings.Split(string(buf), "\n\n") {
+		nl := strings.Index(g, "\n")
+		if nl < 0 {
+			continue
+		}
+		hdr := g[:nl]
+		if (strings.Contains(hdr, "Mutex.Lock") || strings.Contains(hdr, "RWMutex.RLock") || strings.Contains(hdr, "semacquire")) &&
+			strings.Contains(g, "github.com/gocql/gocql.(*") {
+			n++
+		}
+	}
+	return n
+}
+
 func (w *world) sortedShow(got []*gocql.HostInfo) string {
 	ids := make([]int, len(got))
 	for i, h := range got {
@@ -1302,6 +1514,78 @@ func (w *world) sortedShow(got []*gocql.HostInfo) string {
 }
 
 // lookupKs: the keyspace metadata the token-aware policy is given (getKeyspaceMetadata)
+// lookupKsOpts: the keyspace metadata the policy reads: SimpleStrategy rf / LocalStrategy / (w-s11f)
+// NetworkTopologyStrategy "nts:<dc>=<rf>;..." (datacenters named as the hosts' are: dc<n>)
+func (w *world) lookupKsOpts(ks string) (string, map[string]interface{}, bool) {
+	m, ok := w.ksMeta[ks]
+	if !ok {
+		return "", nil, false
+	}
+	if strings.HasPrefix(m, "nts:") {
+		opts := map[string]interface{}{}
+		for i, kv := range strings.Split(m[4:], ";") {
+			p := strings.SplitN(kv, "=", 2)
+			if len(p) != 2 {
+				continue
+			}
+			if i%2 == 0 {
+				opts["dc"+p[0]] = p[1] // as the schema tables give it: a string
+			} else {
+				opts["dc"+p[0]] = atoi(p[1])
+			}
+		}
+		return "org.apache.cassandra.locator.NetworkTopologyStrategy", opts, true
+	}
+	class, rf, ok := w.lookupKs(ks)
+	return class, map[string]interface{}{"replication_factor": rf}, ok
+}
+
+// observeTable: (w-s11f) the replica table of a NetworkTopologyStrategy keyspace is TAKEN FROM THE POLICY (placement is
+// C10's subject: theorems and campaign there); what C11 checks is what the policy does with it - a table the policy
+// computed itself is held to the property in full (no host twice is excused: w.own)
+func (w *world) observeTable(ksName string) {
+	delete(w.tables, ksName)
+	delete(w.tableDup, ksName)
+	delete(w.inj, ksName)
+	delete(w.held, ksName)
+	if w.own == nil {
+		w.own = map[string]bool{}
+	}
+	w.own[ksName] = true
+	toks, hs, ok := gocql.VerifTAReplicaTable(w.pol, ksName)
+	if !ok {
+		return
+	}
+	w.held[ksName] = true
+	w.inj[ksName] = true // not a table the MODEL computes: `offer` needs a head of known hosts
+	tab := make([]tabEntry, len(toks))
+	for i := range toks {
+		tab[i] = tabEntry{tok: atoi(toks[i]), hosts: append([]*gocql.HostInfo(nil), hs[i]...)}
+		if hasDup(hs[i]) {
+			w.tableDup[ksName] = true
+		}
+	}
+	if len(tab) > 0 {
+		w.tables[ksName] = tab
+	}
+}
+
+// showObserved: the table the policy holds for a keyspace, as a `kstab` line carries it
+func (w *world) showObserved(ksName string) string {
+	toks, hs, ok := gocql.VerifTAReplicaTable(w.pol, ksName)
+	if !ok {
+		return "none"
+	}
+	if len(toks) == 0 {
+		return "empty"
+	}
+	parts := make([]string, len(toks))
+	for i := range toks {
+		parts[i] = strconv.Itoa(atoi(toks[i])) + ":" + w.showIDs(hs[i])
+	}
+	return strings.Join(parts, " ")
+}
+
 func (w *world) lookupKs(ks string) (string, interface{}, bool) {
 	m, ok := w.ksMeta[ks]
 	if !ok {
@@ -1383,6 +1667,9 @@ func (w *world) headViolation(head, got []*gocql.HostInfo, limit int, partial bo
 func (w *world) slotExcluded(sl *slot) string {
 	if sl.epoch != w.epoch {
 		return "mutated"
+	}
+	if sl.stch {
+		return "state-changed"
 	}
 	return w.exclusion(sl.reps, sl.known, sl.fresh)
 }
@@ -2048,6 +2335,7 @@ func (g *gen) burstScenario(idx, rounds int) {
 		g.emit("kschg 1", "kschg", true)
 	}
 	cls := "/" + g.kind + "/ta" + b01(g.ta)
+	burstNo := idx
 	burst := func(kind string, calls []string) {
 		if len(calls) < 2 {
 			return // a burst needs two calls
@@ -2056,7 +2344,31 @@ func (g *gen) burstScenario(idx, rounds int) {
 			j := r.Intn(i + 1)
 			calls[i], calls[j] = calls[j], calls[i]
 		}
-		a := g.emit("burst "+strings.Join(calls, " "), "burst"+cls+"/"+kind, true)
+		// every other burst is GATED: the calls are parked at their first read of the address of one listed host of
+		// the nearest tier that no call is about, and released together once all of them are in progress (gburst).
+		// The gate is chosen from the op lines alone, without drawing from the generator.
+		burstNo++
+		line, bk := "burst "+strings.Join(calls, " "), "burst"
+		if burstNo%2 == 1 {
+			inBurst := map[int]bool{}
+			for _, c := range calls {
+				for _, x := range strings.Split(c[strings.Index(c, ":")+1:], "+") {
+					inBurst[atoi(x)] = true
+				}
+			}
+			var cand []int
+			for id := 1; id <= g.n; id++ {
+				st := g.w.stat(id)
+				if h, ok := g.w.hosts[id]; ok && !inBurst[id] && !g.w.taint[id] && st.known && (st.last == "add" || st.last == "hup") && g.w.tier(h) == 0 {
+					cand = append(cand, id)
+				}
+			}
+			if len(cand) > 0 {
+				line = fmt.Sprintf("gburst %d %s", cand[(burstNo*7)%len(cand)], strings.Join(calls, " "))
+				bk = "gburst"
+			}
+		}
+		a := g.emit(line, bk+cls+"/"+kind, true)
 		if a != "ok" {
 			return
 		}
@@ -2066,14 +2378,14 @@ func (g *gen) burstScenario(idx, rounds int) {
 			// routed queries whose replica lists start at hosts of the burst (token of host id = id*10), and a random one
 			for i, c := range calls {
 				if i < 3 {
-					g.pickWith("0", c[strings.Index(c, ":")+1:]+"0", 1000, true)
+					g.pickWith("0", strings.Split(c[strings.Index(c, ":")+1:], "+")[0]+"0", 1000, true)
 				}
 			}
 			g.pickWith("0", strconv.Itoa(r.Intn(g.n*10)), 1000, true)
 			g.pickWith("1", strconv.Itoa(r.Intn(g.n*10)), 1000, true)
 			if len(calls) > 0 {
 				c := calls[0]
-				g.pickWith("1", c[strings.Index(c, ":")+1:]+"0", 1000, true)
+				g.pickWith("1", strings.Split(c[strings.Index(c, ":")+1:], "+")[0]+"0", 1000, true)
 			}
 		}
 	}
@@ -2104,6 +2416,14 @@ func (g *gen) burstScenario(idx, rounds int) {
 		switch (idx + round) % 8 {
 		case 0, 4: // nodes joining at once
 			if c := calls("add", choose(k, base+1, g.n, unknown)); len(c) >= 2 {
+				// (w-s11f) every other time some of them arrive in ONE AddHosts call that overlaps the single calls
+				if len(c) >= 3 && (idx+round)%8 == 4 {
+					var ids []string
+					for _, x := range c[:len(c)/2+1] {
+						ids = append(ids, x[strings.Index(x, ":")+1:])
+					}
+					c = append([]string{"addhosts:" + strings.Join(ids, "+")}, c[len(c)/2+1:]...)
+				}
 				burst("join", c)
 			} else {
 				burst("leave", calls("remove", choose(k, base+1, g.n, known)))
@@ -2158,6 +2478,393 @@ func (g *gen) burstScenario(idx, rounds int) {
 			}
 			g.pickWith("-", "-", 1000, true)
 		}
+	}
+}
+
+// bulkScenario (family 5, "the hosts arrive in bulk"): what Session.init does - ONE AddHosts call with the hosts of
+// the first ring refresh when the policy has the method (tokenAwareHostPolicy), AddHost per host otherwise. Every
+// policy kind, bare and token-aware (2 of 3; session keyspace with SimpleStrategy rf 1..3, another keyspace with a
+// readable schema, tables installed through the hook), 3..9 hosts with 1..2 tokens; the first call hands over a random
+// subset (now and then one host twice, now and then before the partitioner / the keyspace table is known); then 6..15
+// steps of AddHost / RemoveHost / HostUp / HostDown / state / KeyspaceChanged / installed table / AddHosts AGAIN with
+// known and unknown hosts mixed or with known hosts only (the code then recomputes every held table although its host
+// list did not change: an installed table is dropped - what a fold of AddHost would not do); a third of the scenarios
+// learn the partitioner late (`setpart` at a random step, now and then repeated); after every step full drains
+// without routing key (a quarter each: Pick(nil) / a query whose GetRoutingKey fails) and - token-aware - routed on
+// keyspaces 0 and 1: `offer` (spec-backed) unless excluded; now and then `islocal`.
+func (g *gen) bulkScenario(idx int) {
+	r := g.r
+	g.kind = []string{"rr", "dc", "rack"}[idx%3]
+	g.ta = idx%9 < 6
+	shuffle := g.ta && r.Intn(4) == 0
+	g.nonlocal = g.ta && r.Bool()
+	g.ldc, g.lrack = r.Intn(2), r.Intn(2)
+	// a third of the scenarios learn the partitioner LATE (SetPartitioner after hosts / keyspaces are known): `setpart`
+	latePart := r.Intn(3) == 0
+	g.emit(fmt.Sprintf("reset %s %s %d %d %s %s %s", g.kind, b01(g.ta), g.ldc, g.lrack, b01(shuffle), b01(g.nonlocal), b01(!latePart)),
+		"reset/"+g.kind+"/ta"+b01(g.ta), false)
+	g.n = 3 + r.Intn(7)
+	g.sess = -1
+	for id := 1; id <= g.n; id++ {
+		ts := strconv.Itoa(id * 100)
+		if r.Intn(3) == 0 {
+			ts += "," + strconv.Itoa(id*100+1000+r.Intn(50))
+		}
+		g.emit(fmt.Sprintf("host %d %d %d %d %s", id, id, r.Intn(2), r.Intn(2), ts), "host", false)
+	}
+	if g.ta {
+		if r.Intn(4) != 0 {
+			g.sess = 0
+			g.emit("sessks 0", "sessks", false)
+			g.emit(fmt.Sprintf("ksmeta 0 %d", 1+r.Intn(3)), "ksmeta", false)
+		}
+		if r.Bool() {
+			g.emit(fmt.Sprintf("ksmeta 1 %d", 1+r.Intn(3)), "ksmeta", false)
+		}
+	}
+	subset := func(onlyKnown bool) string {
+		var ids []string
+		for id := 1; id <= g.n; id++ {
+			if onlyKnown && !g.w.stat(id).known {
+				continue
+			}
+			if r.Intn(4) != 0 {
+				ids = append(ids, strconv.Itoa(id))
+				if r.Intn(12) == 0 {
+					ids = append(ids, strconv.Itoa(id)) // the same host twice in one call
+				}
+			}
+		}
+		if len(ids) == 0 {
+			ids = []string{strconv.Itoa(1 + r.Intn(g.n))}
+		}
+		for i := len(ids) - 1; i > 0; i-- {
+			j := r.Intn(i + 1)
+			ids[i], ids[j] = ids[j], ids[i]
+		}
+		return strings.Join(ids, ",")
+	}
+	cls := "/" + g.kind + "/ta" + b01(g.ta)
+	observe := func() {
+		switch r.Intn(4) {
+		case 0:
+			g.pickWith("nil", "-", 1000, true) // Pick(nil)
+		case 1:
+			g.pickWith("err", "-", 1000, true) // GetRoutingKey fails
+		default:
+			g.pickWith("-", "-", 1000, true)
+		}
+		if g.ta {
+			g.pickWith("0", strconv.Itoa(r.Intn((g.n+1)*100)), 1000, true)
+			if r.Bool() {
+				g.pickWith("1", strconv.Itoa(r.Intn((g.n+1)*100)), 1000, true)
+			}
+		}
+		if r.Intn(3) == 0 {
+			g.emit(fmt.Sprintf("islocal %d", 1+r.Intn(g.n)), "islocal"+cls, false)
+		}
+	}
+	if g.ta && r.Intn(3) == 0 {
+		g.emit("kschg 1", "kschg", true) // before any host is known
+	}
+	g.emit("addhosts "+subset(false), "addhosts"+cls+"/first", true)
+	observe()
+	if g.ta && r.Bool() {
+		g.emit("kschg 1", "kschg", true)
+		observe()
+	}
+	setAt := -1
+	steps := 6 + r.Intn(10)
+	if latePart {
+		setAt = r.Intn(steps)
+	}
+	for i := steps; i > 0; i-- {
+		if steps-i == setAt || (setAt >= 0 && steps-i > setAt && r.Intn(8) == 0) {
+			g.emit("setpart", "setpart"+cls, true) // the first one builds the ring and every table; later ones change nothing
+			observe()
+		}
+		id := 1 + r.Intn(g.n)
+		switch x := r.Intn(100); {
+		case x < 12:
+			g.emit(fmt.Sprintf("add %d", id), "add", true)
+		case x < 26:
+			g.emit(fmt.Sprintf("remove %d", id), "remove", true)
+		case x < 34:
+			if g.w.stat(id).known { // (HostUp of an unknown host is KF-C11-4: excluded wholesale)
+				if r.Intn(4) != 0 {
+					g.emit(fmt.Sprintf("state %d 1", id), "state", false)
+				}
+				g.emit(fmt.Sprintf("hup %d", id), "hup", true)
+			}
+		case x < 42:
+			if r.Intn(4) != 0 {
+				g.emit(fmt.Sprintf("state %d 0", id), "state", false)
+			}
+			g.emit(fmt.Sprintf("hdown %d", id), "hdown", true)
+		case x < 48:
+			g.emit(fmt.Sprintf("state %d %d", id, r.Intn(2)), "state", false)
+		case x < 56:
+			if g.ta {
+				g.emit(fmt.Sprintf("kschg %d", r.Intn(2)), "kschg", true)
+			}
+		case x < 68:
+			if g.ta {
+				g.repl()
+				observe()
+				if r.Bool() {
+					g.emit("addhosts "+subset(true), "addhosts"+cls+"/known-only", true)
+				}
+			}
+		case x < 84:
+			g.emit("addhosts "+subset(false), "addhosts"+cls+"/mixed", true)
+		default:
+			g.emit("addhosts "+subset(true), "addhosts"+cls+"/known-only", true)
+		}
+		observe()
+	}
+}
+
+// lazyScenario (family 6, "a node goes down / comes back while a query is being retried"): the iterators read the
+// state of a host object at the call that reaches it (replica phase, remote buckets, fallback iterator). Every policy
+// kind, token-aware 3 of 4 (replica table of keyspace 0 computed for the session keyspace or installed through the
+// hook; ShuffleReplicas / NonLocalReplicasFallback random), 4..8 hosts; 4 rounds: two iterators opened on one token,
+// 0..2 calls of the first, then 1..4 times: setState(up|down) of a random host - half of the time followed by the
+// notifier call the session makes (HostDown / HostUp) - and one call of a random iterator; then both drained.
+// Compared call by call with the model's lazy iterator (Policies.LIter); the harness checks on the real iterators:
+// no nil host, no host that is down at the call that offers it, no host twice per iterator
+// (C11_lazy_iterator_only_up / C11_lazy_iterator_no_host_twice), every host expected throughout and untouched offered.
+func (g *gen) lazyScenario(idx int) {
+	r := g.r
+	g.kind = []string{"rr", "dc", "rack"}[idx%3]
+	g.ta = idx%4 != 3
+	shuffle := g.ta && r.Intn(3) == 0
+	g.nonlocal = g.ta && r.Bool()
+	g.ldc, g.lrack = 0, 0
+	g.emit(fmt.Sprintf("reset %s %s 0 0 %s %s 1", g.kind, b01(g.ta), b01(shuffle), b01(g.nonlocal)), "reset/"+g.kind+"/ta"+b01(g.ta), false)
+	g.n = 4 + r.Intn(5)
+	g.sess = -1
+	for id := 1; id <= g.n; id++ {
+		dc, rack := 0, 0
+		if r.Intn(4) == 0 {
+			dc = 1
+		}
+		if r.Intn(3) == 0 {
+			rack = 1
+		}
+		g.emit(fmt.Sprintf("host %d %d %d %d %d", id, id, dc, rack, id*100), "host", false)
+	}
+	useSess := g.ta && r.Bool()
+	if useSess {
+		g.sess = 0
+		g.emit("sessks 0", "sessks", false)
+		g.emit(fmt.Sprintf("ksmeta 0 %d", 2+r.Intn(2)), "ksmeta", false)
+	}
+	for id := 1; id <= g.n; id++ {
+		g.emit(fmt.Sprintf("add %d", id), "add", true)
+	}
+	if g.ta && !useSess {
+		var parts []string
+		for t := 0; t < 2+r.Intn(2); t++ {
+			k := 2 + r.Intn(3)
+			if k > g.n {
+				k = g.n
+			}
+			var ids []string
+			for _, j := range rngPerm(r, g.n)[:k] {
+				ids = append(ids, strconv.Itoa(j+1))
+			}
+			parts = append(parts, fmt.Sprintf("%d:%s", 300*(t+1), strings.Join(ids, ",")))
+		}
+		g.emit("repl 0 "+strings.Join(parts, " "), "repl", false)
+	}
+	ks, cls := "0", "/"+g.kind+"/ta"
+	if !g.ta {
+		ks, cls = "-", "/"+g.kind+"/plain"
+	}
+	perms := func() string {
+		if g.w.shuf {
+			return permsFor(int64(r.Intn(seedSpace)))
+		}
+		return "-"
+	}
+	for round := 0; round < 4; round++ {
+		tk := "-"
+		if g.ta {
+			tk = strconv.Itoa(r.Intn((g.n + 1) * 100))
+		}
+		g.emit(fmt.Sprintf("open 0 %s %s %s", ks, tk, perms()), "open"+cls, true)
+		g.emit(fmt.Sprintf("open 1 %s %s %s", ks, tk, perms()), "open"+cls, true)
+		if k := r.Intn(3); k > 0 {
+			g.emit(fmt.Sprintf("next 0 %d", k), "next"+cls+"/lazy-state", true)
+		}
+		for k := 1 + r.Intn(4); k > 0; k-- {
+			id := 1 + r.Intn(g.n)
+			v := r.Intn(2)
+			g.emit(fmt.Sprintf("state %d %d", id, v), "state/alive", true)
+			if r.Bool() && g.w.stat(id).known {
+				if v == 0 {
+					g.emit(fmt.Sprintf("hdown %d", id), "hdown", true)
+				} else {
+					g.emit(fmt.Sprintf("hup %d", id), "hup", true)
+				}
+			}
+			g.emit(fmt.Sprintf("next %d 1", r.Intn(2)), "next"+cls+"/lazy-state", true)
+		}
+		g.emit("next 0 1000", "next"+cls+"/lazy-state", true)
+		g.emit("next 1 1000", "next"+cls+"/lazy-state", true)
+		// everything up and listed again for the next round
+		for id := 1; id <= g.n; id++ {
+			if h := g.w.hosts[id]; !h.IsUp() {
+				g.emit(fmt.Sprintf("state %d 1", id), "state", false)
+			}
+			if st := g.w.stat(id); st.known && st.last == "hdown" {
+				g.emit(fmt.Sprintf("hup %d", id), "hup", true)
+			}
+		}
+	}
+}
+
+// ntsScenario (family 7, "the production shape"): a token-aware policy over rr | dc | rack whose keyspace 1 uses
+// NetworkTopologyStrategy (rf 1..4 in dc0, 0..3 in dc1, now and then a datacenter that is not in the ring) - as the
+// SESSION keyspace (recomputed on every change of the host list) or as another keyspace (KeyspaceChanged, then
+// recomputed too); 4..9 hosts in 2..3 datacenters x 1..3 racks with 1..3 tokens each (vnodes). The table is computed
+// by the REAL updateReplicas -> getStrategy -> networkTopology.replicaMap; the model does not compute it (placement is
+// C10's subject): after every call that can change it a `kstab` line hands the model the table the policy holds.
+// What is checked here is what the policy DOES with such tables: after every step routed full drains on every token
+// of the table (up to 6) and two random ones, `offer` (spec-backed) unless excluded; the harness holds every real
+// sequence to the property in full - no host twice is excused for a table the policy computed itself.
+func (g *gen) ntsScenario(idx int) {
+	r := g.r
+	g.kind = []string{"dc", "rack", "rr"}[idx%3]
+	g.ta = true
+	shuffle := r.Intn(4) == 0
+	g.nonlocal = r.Bool()
+	g.ldc, g.lrack = r.Intn(2), r.Intn(2)
+	g.emit(fmt.Sprintf("reset %s 1 %d %d %s %s 1", g.kind, g.ldc, g.lrack, b01(shuffle), b01(g.nonlocal)), "reset/"+g.kind+"/ta1", false)
+	g.n = 4 + r.Intn(6)
+	g.sess = -1
+	ndc := 2
+	if r.Intn(4) == 0 {
+		ndc = 3
+	}
+	nrack := 1 + r.Intn(3)
+	// every other scenario is DENSE: most hosts in dc0 on two racks, 2..3 tokens per host, rf(dc0) above the number of
+	// racks - the ring walk then parks hosts whose rack was used already and drains them later
+	dense := idx%2 == 0
+	if dense {
+		g.n = 5 + r.Intn(5)
+		nrack = 2
+	}
+	for id := 1; id <= g.n; id++ {
+		var toks []string
+		nt := 1 + r.Intn(3)
+		dc := r.Intn(ndc)
+		if dense {
+			nt = 2 + r.Intn(2)
+			dc = 0
+			if r.Intn(5) == 0 {
+				dc = 1
+			}
+		}
+		for j := 0; j < nt; j++ {
+			toks = append(toks, strconv.Itoa(j*1000+id*10+r.Intn(10)))
+		}
+		g.emit(fmt.Sprintf("host %d %d %d %d %s", id, id, dc, r.Intn(nrack), strings.Join(toks, ",")), "host", false)
+	}
+	rf0 := 1 + r.Intn(4)
+	if dense {
+		rf0 = 3 + r.Intn(3)
+	}
+	meta := fmt.Sprintf("nts:0=%d;1=%d", rf0, r.Intn(4))
+	if r.Intn(6) == 0 {
+		meta += ";3=1" // a datacenter no host is in
+	}
+	if ndc == 3 && r.Bool() {
+		meta += fmt.Sprintf(";2=%d", 1+r.Intn(2))
+	}
+	sessNts := r.Bool()
+	if sessNts {
+		g.sess = 1
+		g.emit("sessks 1", "sessks", false)
+	}
+	g.emit("ksmeta 1 "+meta, "ksmeta/nts", false)
+	sync := func() {
+		g.emit("kstab 1 "+g.w.showObserved("ks1"), "kstab", true)
+	}
+	observe := func() {
+		var toks []int
+		for _, e := range g.w.tables["ks1"] {
+			toks = append(toks, e.tok)
+		}
+		for i := len(toks) - 1; i > 0; i-- {
+			j := r.Intn(i + 1)
+			toks[i], toks[j] = toks[j], toks[i]
+		}
+		if len(toks) > 6 {
+			toks = toks[:6]
+		}
+		for _, t := range toks {
+			g.pickWith("1", strconv.Itoa(t), 1000, true)
+		}
+		g.pickWith("1", strconv.Itoa(r.Intn(3200)), 1000, true)
+		g.pickWith("1", strconv.Itoa(r.Intn(3200)), 1000, true)
+		if r.Intn(3) == 0 {
+			g.pickWith("-", "-", 1000, true)
+		}
+	}
+	var first []string
+	for id := 1; id <= g.n; id++ {
+		if r.Intn(5) != 0 {
+			first = append(first, strconv.Itoa(id))
+		}
+	}
+	if len(first) == 0 {
+		first = []string{"1"}
+	}
+	if r.Bool() {
+		g.emit("addhosts "+strings.Join(first, ","), "addhosts/nts", true)
+	} else {
+		for _, id := range first {
+			g.emit("add "+id, "add", true)
+		}
+	}
+	if !sessNts || r.Intn(3) == 0 {
+		g.emit("kschg 1", "kschg", true)
+	}
+	sync()
+	observe()
+	for i := 5 + r.Intn(6); i > 0; i-- {
+		id := 1 + r.Intn(g.n)
+		switch x := r.Intn(100); {
+		case x < 25:
+			g.emit(fmt.Sprintf("add %d", id), "add", true)
+		case x < 50:
+			g.emit(fmt.Sprintf("remove %d", id), "remove", true)
+		case x < 60:
+			if g.w.stat(id).known {
+				g.emit(fmt.Sprintf("state %d 1", id), "state", false)
+				g.emit(fmt.Sprintf("hup %d", id), "hup", true)
+			}
+		case x < 72:
+			g.emit(fmt.Sprintf("state %d 0", id), "state", false)
+			g.emit(fmt.Sprintf("hdown %d", id), "hdown", true)
+		case x < 80:
+			g.emit(fmt.Sprintf("state %d %d", id, r.Intn(2)), "state", false)
+		case x < 90:
+			g.emit("kschg 1", "kschg", true)
+		default:
+			var ids []string
+			for j := 1; j <= g.n; j++ {
+				if r.Intn(3) == 0 {
+					ids = append(ids, strconv.Itoa(j))
+				}
+			}
+			if len(ids) > 0 {
+				g.emit("addhosts "+strings.Join(ids, ","), "addhosts/nts", true)
+			}
+		}
+		sync()
+		observe()
 	}
 }
 
@@ -3103,6 +3810,30 @@ func main() {
 	}
 	for i := 0; i < nid; i++ {
 		g.identityScenario(i)
+	}
+	// (w-s11f) BULK family: the hosts reach the policy the way Session.init hands them over (AddHosts), last again
+	nbk := 90
+	if tier == "thorough" {
+		nbk = 2700
+	}
+	for i := 0; i < nbk; i++ {
+		g.bulkScenario(i)
+	}
+	// (w-s11f) LAZY-STATE family: the up/down state of host objects changes while iterators are alive
+	nlz := 60
+	if tier == "thorough" {
+		nlz = 1800
+	}
+	for i := 0; i < nlz; i++ {
+		g.lazyScenario(i)
+	}
+	// (w-s11f) NTS family: keyspaces with NetworkTopologyStrategy, tables computed by the policy itself
+	nnt := 80
+	if tier == "thorough" {
+		nnt = 2400
+	}
+	for i := 0; i < nnt; i++ {
+		g.ntsScenario(i)
 	}
 	extra := map[string]interface{}{}
 	if tier == "thorough" {
